@@ -13,7 +13,7 @@ use super::Op;
 use crate::{
     ext::{compext as x, tasks as t},
     rng::Rng,
-    sexp::{Sexp, a, l, s, tagged},
+    sexp::{Sexp, a, l, tagged},
     conv,
 };
 use anthem::{
